@@ -33,35 +33,35 @@ pub const SUBS: &[Sub] = &[
         property: "C18",
         configs: crate::h_c18::configs,
         rule: "configs = (a) exhaustive sequential cases on one loom thread: all (old,new) in {0..4}^2 and all offer sequences of length <=3 for ReloadId::update; all operation sequences of length <=3 over {update,fetch_max,swap,store}x{0..4}+load from every initial value 0..4 for AtomicReloadId, vs a max reference; (b) every assignment of 1-2 operations from {update k, fetch_max k, swap k, load} to 2-3 threads (up to thread symmetry) x initial values; for each config loom enumerates every interleaving of the intercepted atomic operations (DPOR, C11 model). evaluations = loom executions + sequential cases; distinct = distinct (config, results, final value) observations",
-        bound: "threads 2-3, calls per thread 1-2, ids 0..4 (sequential) / 0..3 (concurrent), no preemption bound",
+        bound: "threads 2-3, calls per thread 1-2 (3 threads x 2 mixed calls: thorough only; 3 threads x 2 updates over {1,2}: both tiers), ids 0..4 (sequential) / 0..3 (concurrent), no preemption bound",
     },
     Sub {
         name: "c16_bytes_loom",
         property: "C16",
         configs: crate::h_c16::configs,
         rule: "configs = constructor shape {from_slice len 3/0, from_vec exact/excess/zero capacity, SharedString from &str/String} x every valid program of <=L operations {clone, drop, send-a-clone, receive-and-drop} per thread (ring of 2-3 threads, up to rotation), main drops the original concurrently; contents/aliasing/liveness checked around every operation; for each config loom enumerates every interleaving of the refcount atomics and mailbox locks within the preemption bound; alloc/dealloc are loom-tracked. distinct = distinct (mail received, leftover, allocs, frees) observations",
-        bound: "quick: 2 threads x <=2 ops (all constructors), 2 threads x <=3 ops and 3 threads x <=1 op (representative constructors); thorough: 2 threads x <=3 ops (all constructors), 3 threads x <=2 ops (3 constructors)",
+        bound: "quick: 2 threads x <=2 ops (all 7 constructors), 2 threads x <=3 ops (2 constructors), 3 threads x <=1 op (3 constructors), 3 threads x <=2 ops (from_vec with excess capacity); thorough: 2 threads x <=3 ops (all 7 constructors), 3 threads x <=2 ops (3 constructors)",
     },
     Sub {
         name: "c17_cell_loom",
         property: "C17",
         configs: crate::h_c17::configs,
         rule: "configs = seed type {with Drop, without Drop} x outcome vector over {Ok,Err} for 2-3 concurrent get_or_try_init/get_or_init callers x 0-2 polls of get by a further thread (+ with_value cells); every initialiser self-checks the seed and yields inside the closure; for each config loom enumerates every interleaving of the OnceCell's atomics/mutex/condvar within the preemption bound; drop ledger checked at quiescence and after dropping the cell. distinct = distinct (who ran, what each caller/poll saw) observations",
-        bound: "2-3 initialiser threads + optional poller thread (<=2 polls; quick: <=1 poll with 3 initialisers)",
+        bound: "2-3 initialiser threads + optional poller thread (<=2 polls); same configs in both tiers",
     },
     Sub {
         name: "c07_entry_loom",
         property: "C07",
         configs: crate::h_c07::configs,
-        rule: "configs = writers {1x1, 1x2, 2x1 writes (thorough: 2+1, 1x3)} x readers {typed guard, untyped+downcast guard, mapped guard, typed then mapped; 1-2 reader threads}; each reader copies value and reload id under its guard, yields, and looks again; for each config loom enumerates every interleaving of the entry's RwLock and atomic operations within the preemption bound. distinct = distinct (what each reader saw, final value, final id) observations",
-        bound: "1-2 writer threads, 1-2 reader threads, <=3 writes",
+        rule: "configs = writers {1x1, 1x2, 1x3, 1+1, 2+1 writes} x readers {typed guard, untyped+downcast guard, mapped guard, typed then mapped; 1-2 reader threads}; each reader copies value and reload id under its guard, yields, and looks again; for each config loom enumerates every interleaving of the entry's RwLock and atomic operations within the preemption bound. distinct = distinct (what each reader saw, final value, final id) observations",
+        bound: "1-2 writer threads, 1-2 reader threads, <=3 writes; same configs in both tiers; one writer + one reader with <=2 writes: unbounded",
     },
     Sub {
         name: "c06_watch_loom",
         property: "C06",
         configs: crate::h_c06::configs,
-        rule: "configs = n in 1..2 (thorough 3) writes by one writer x pollers {ReloadWatcher made before the writes / by the reader / from the untyped handle, reloaded_global, both alternately; 1-3 polls; 1-2 (thorough 3) polling threads}; `if reported { read value }` after every poll; final polls after the joins; for each config loom enumerates every interleaving of the entry's RwLock and atomic operations within the preemption bound. distinct = distinct (poll answers per thread, final flag) observations",
-        bound: "1 writer thread, 1-2 (thorough 3) poller threads, <=3 writes, <=3 polls",
+        rule: "configs = n in 1..3 writes by one writer x pollers {ReloadWatcher made before the writes / by the reader / from the untyped handle, reloaded_global, both alternately; 1-3 polls; 1-3 polling threads}; `if reported { read value }` after every poll; final polls after the joins; for each config loom enumerates every interleaving of the entry's RwLock and atomic operations within the preemption bound. distinct = distinct (poll answers per thread, final flag) observations",
+        bound: "1 writer thread, 1-3 poller threads, <=3 writes, <=3 polls; same configs in both tiers; one poller with <=2 polls and <=2 writes: unbounded",
     },
 ];
 
@@ -400,8 +400,9 @@ fn run_all(sub: &Sub, tier: &str, thorough: bool, jobs: usize, only: Option<&str
             } else {
                 let msg = v["msg"].as_str().unwrap_or("").to_string();
                 let tag = classify(&msg);
+                let msg = msg.split_whitespace().collect::<Vec<_>>().join(" ");
                 let mut desc = format!("loom execution #{} of config `{}`: {}", v["iters"], v["name"].as_str().unwrap_or(""), msg);
-                if !msg.contains("[[") {
+                if !msg.contains("[[") && (tag == "panic" || tag == "no-progress") {
                     desc.push_str(&format!(" (at {}); stderr tail: {}", v["loc"].as_str().unwrap_or("?"), v["stderr"].as_str().unwrap_or("")));
                 }
                 fails.push(Failure { idx: v["idx"].as_u64().unwrap() as usize, name: v["name"].as_str().unwrap().to_string(), tag, desc });
